@@ -53,7 +53,7 @@ func (s *retryStream) SendMsg(m any) error {
 }
 
 func (s *retryStream) RecvMsg(m any) (err error) {
-	if err = s.ClientStream.RecvMsg(m); err == nil || errors.Is(err, context.Canceled) {
+	if err = s.ClientStream.RecvMsg(m); err == nil || errors.Is(err, context.Canceled) || s.ctx.Err() != nil {
 		return
 	}
 	logger := log.WithFunc("client.RecvMsg")
